@@ -11,6 +11,7 @@ UNITS = {
                     'features': [], 'preds': True},
     'langid_match': {'crate': 'unic-langid-impl', 'file': 'contracts/kani/langid_match.rs', 'mod': 'verif_langid_match',
                      'features': [], 'preds': True},
+    'langid_wrap': {'crate': 'unic-langid-impl', 'file': 'contracts/kani/langid_wrap.rs', 'mod': 'verif_langid_wrap', 'features': [], 'preds': False},
     'langid_tables': {'crate': 'unic-langid-impl', 'file': 'contracts/kani/langid_tables.rs', 'mod': 'verif_langid_tables',
                       'features': ['likelysubtags'], 'preds': True, 'gen': 'likely', 'host': 'src/likelysubtags/mod.rs',
                       'modfile': 'src/likelysubtags/verif_langid_tables.rs'},
